@@ -18,6 +18,9 @@ GUARD = "GOOGLE_DRACO_VERIF"
 NCPU = os.cpu_count() or 8
 
 T0 = time.time()
+# sanitizer runtime options for every ASan+UBSan harness run (never combined with `ulimit -v`: ASan reserves TBs of shadow)
+SAN_ENV = {"ASAN_OPTIONS": "detect_leaks=0:abort_on_error=0:allocator_may_return_null=1:max_allocation_size_mb=3072:hard_rss_limit_mb=8000",
+           "UBSAN_OPTIONS": "print_stacktrace=1:halt_on_error=1"}
 
 
 def log(*a):
@@ -162,7 +165,7 @@ def tlc(module, cfg=None, workers=None, specdir=None, env=None, timeout=1500, si
     tmpd = os.path.join(BUILD, "tlc", tag + "-tmp")
     os.makedirs(meta, exist_ok=True)
     os.makedirs(tmpd, exist_ok=True)
-    jopts = ["-XX:+UseParallelGC", "-Xmx" + xmx, "-Djava.io.tmpdir=" + tmpd, "-DTLA-Library=" + SPEC + os.pathsep + os.path.join(SPEC, "mc") + os.pathsep + os.path.join(SPEC, "trace")]
+    jopts = ["-XX:+UseParallelGC", "-Xss64m", "-Xmx" + xmx, "-Djava.io.tmpdir=" + tmpd, "-DTLA-Library=" + SPEC + os.pathsep + os.path.join(SPEC, "mc") + os.pathsep + os.path.join(SPEC, "trace")]
     if dfs:
         jopts.append("-Dtlc2.tool.queue.IStateQueue=StateDeque")
     cmd = ["java"] + jopts + ["-cp", TLA_CP, "tlc2.TLC", "-metadir", meta, "-config", cfg,
@@ -242,7 +245,7 @@ def coverage_lines(out):
     return cov
 
 
-def trace_validate(tracemod, tracefile, nshards=NCPU, env=None, timeout=1500, specdir=None, cfg=None):
+def trace_validate(tracemod, tracefile, nshards=1, env=None, timeout=1500, specdir=None, cfg=None):
     """Validate an ndjson observation file with a Trace_* spec.
 
     Convention of every Trace_* spec in spec/trace: reads env TRACE, has variables (k, i), Init picks
@@ -259,7 +262,7 @@ def trace_validate(tracemod, tracefile, nshards=NCPU, env=None, timeout=1500, sp
             timeout=timeout, deadlock=False)
     bad = None
     if r["violated"] or r.get("post_violated"):
-        m = re.findall(r"/\\ i = (\d+)", r["out"])
+        m = re.findall(r"/\\ ti = (\d+)", r["out"])
         bad = int(m[-1]) if m else -1
     r["bad_index"] = bad
     return r
